@@ -79,6 +79,19 @@ func (e *Engine) lookupFuncObj(fc *FuncContract) *types.Func {
 	// interface method: Pkg.Type.Method
 	p := e.pkgs[fc.Pkg]
 	parts := strings.Split(fc.Name, ".")
+	if p != nil && len(parts) == 1 {
+		// a named function type: the "function" is a call of a value of that type, which is the first argument
+		if tn, ok := p.Types.Scope().Lookup(parts[0]).(*types.TypeName); ok {
+			if sig, ok := tn.Type().Underlying().(*types.Signature); ok {
+				params := []*types.Var{types.NewVar(0, p.Types, "fn", tn.Type())}
+				for i := 0; i < sig.Params().Len(); i++ {
+					params = append(params, sig.Params().At(i))
+				}
+				nsig := types.NewSignatureType(nil, nil, nil, types.NewTuple(params...), sig.Results(), false)
+				return types.NewFunc(0, p.Types, parts[0], nsig)
+			}
+		}
+	}
 	if p == nil || len(parts) != 2 {
 		return nil
 	}
